@@ -10,7 +10,7 @@ use crate::rng::Rng;
 use serde_json::json;
 use std::collections::VecDeque;
 
-pub const RULE: &str = "(plus a calm phase: a level with relative jitter 3e-2..1e-6 and nothing else, shifts up to 2^33 x the level, where dispersion-valued outputs are compared on their own scale: 1e-9 of the output + 1e-12 of the magnitude under scaling, tau*(M+|d|) under a shift) Twin instances fed x and c*x (all price fields scaled, volume untouched), x and x+d, step by step, for all indicators except RSI, on positive scalar price streams and valid OHLCV bars with base magnitudes 1e-2..1e5, parameters sampled (periods 1..=200): (a) c = 2^k, k in -40..=40: every output of every step judged at 1e-12 (price-valued: |out(cx)-c*out(x)| <= 1e-12*c*M; dimensionless: relative to the output's natural scale; SD and Bollinger half-width on squares), bit-identity reported; (b) arbitrary c log-uniform in [1e-6,1e6] at 1e-9, only on well-conditioned steps decided from the double-double reference of the unscaled twin (t <= 2000, condition number <= 100, no comparison the formula branches on within 1e-9 of a tie unless it is an exact tie of identical inputs); (c) shifts d keeping prices positive: SMA/EMA/WMA/MIN/MAX/BB average/KC/CE levels move by d, MAD/TR/ATR/MACD unchanged, within tau(t)*(M+|d|); SD and BB half-width unchanged on squares; FAST unchanged within tau(t)*c*100, c=(M+|d|)/(high_n-low_n) <= 1e6; (d) MAX(x) == -MIN(-x) exactly. Non-trivial: stream longer than the period; distinct by hash of (relation, indicator, params, factor, stream head).";
+pub const RULE: &str = "(plus windows of 10^5 and 2^17+1 slots for SMA/WMA/MIN/MAX under a shift and a power-of-two factor, fed past the window length; plus a calm phase: a level with relative jitter 3e-2..1e-6 and nothing else, shifts up to 2^33 x the level, where dispersion-valued outputs are compared on their own scale: 1e-9 of the output + 1e-12 of the magnitude under scaling, tau*(M+|d|) under a shift) Twin instances fed x and c*x (all price fields scaled, volume untouched), x and x+d, step by step, for all indicators except RSI, on positive scalar price streams and valid OHLCV bars with base magnitudes 1e-2..1e5, parameters sampled (periods 1..=200): (a) c = 2^k, k in -40..=40: every output of every step judged at 1e-12 (price-valued: |out(cx)-c*out(x)| <= 1e-12*c*M; dimensionless: relative to the output's natural scale; SD and Bollinger half-width on squares), bit-identity reported; (b) arbitrary c log-uniform in [1e-6,1e6] at 1e-9, only on well-conditioned steps decided from the double-double reference of the unscaled twin (t <= 2000, condition number <= 100, no comparison the formula branches on within 1e-9 of a tie unless it is an exact tie of identical inputs); (c) shifts d keeping prices positive: SMA/EMA/WMA/MIN/MAX/BB average/KC/CE levels move by d, MAD/TR/ATR/MACD unchanged, within tau(t)*(M+|d|); SD and BB half-width unchanged on squares; FAST unchanged within tau(t)*c*100, c=(M+|d|)/(high_n-low_n) <= 1e6; (d) MAX(x) == -MIN(-x) exactly. Non-trivial: stream longer than the period; distinct by hash of (relation, indicator, params, factor, stream head).";
 
 #[derive(Clone, Copy, PartialEq, Debug)]
 enum Class {
@@ -446,8 +446,63 @@ fn run_long_arbitrary(ctx: &Ctx) -> Report {
     })
 }
 
+/// Very long windows (10^5 and 2^17+1 slots) under a shift and a power-of-two factor, for the level-valued
+/// window indicators: anything that counts, indexes or weighs with the window length (a weight sum, a slot
+/// counter) in a type that is too narrow shows only once that many inputs have been fed.
+fn run_long_windows(ctx: &Ctx) -> Report {
+    let seed = ctx.seed;
+    let mut jobs = Vec::new();
+    for kind in [Kind::Sma, Kind::Wma, Kind::Min, Kind::Max] {
+        for n in [100_000usize, 131_073] {
+            jobs.push((kind, n));
+        }
+    }
+    par_run(jobs, ctx.threads, move |(kind, n), rep| {
+        let p = Params::new1(*kind, *n);
+        let mut rng = Rng::derive(seed, 0xC14A, *kind as u64 * 1_000_003 + *n as u64);
+        let d = *rng.pick(&[1000.0, 4096.0, 250.5]);
+        let c = *rng.pick(&[0.25, 8.0, 1024.0]);
+        let mut g = BandGen::new(crate::gen::Regime::Walk, 10.0, rng.u64());
+        let (mut a, mut b, mut s) = (Inst::new(&p), Inst::new(&p), Inst::new(&p));
+        let mut m: f64 = 0.0;
+        let steps = *n + 3000;
+        for t in 1..=steps {
+            let x = (g.next() * 100.0).round() / 100.0;
+            m = m.max(x);
+            let (oa, ob, os) = match (a.next_f64(x), b.next_f64(x + d), s.next_f64(x * c)) {
+                (Ok(u), Ok(v), Ok(w)) => (u, v, w),
+                _ => return,
+            };
+            if t % 10_007 != 0 && t + 200 < *n && t > 200 {
+                continue;
+            }
+            let tq = tau(t);
+            for (name, err, tol) in [
+                ("shift", (dd(ob.v[0]) - dd(oa.v[0]) - dd(d)).abs().to_f64(), tq * (m + d)),
+                ("scale_pow2", (dd(os.v[0]) - dd(c) * dd(oa.v[0])).abs().to_f64(), 1e-12 * c * m),
+            ] {
+                rep.evaluations += 1;
+                rep.ratio(&format!("c14.long_window.{}.{}", kind.name(), name), err / tol);
+                if !(err <= tol) {
+                    let sig = format!("{}/c14.long_window.{}/mismatch", kind.name(), name);
+                    if rep.is_new_sig(&sig) {
+                        let detail = format!("{} {}: after {} inputs out(x)={:e}, out(x+{})={:e}, out({}*x)={:e}; |err| {:e} > {:e}", p.label(), name, t, oa.v[0], d, ob.v[0], c, os.v[0], err, tol);
+                        rep.violation(sig.clone(), detail.clone(), crate::common::replay_rerun("C14", &sig, &detail, json!({"params": p.to_json(), "shift": d, "factor": c, "step": t, "seed": seed.to_string()})));
+                    } else {
+                        rep.violation_again(&sig);
+                    }
+                    return;
+                }
+            }
+        }
+        rep.count("long_window_twin_streams");
+        rep.distinct_by_construction += 1;
+    })
+}
+
 pub fn run(ctx: &Ctx) -> Report {
     let mut rep = run_main(ctx);
+    rep.merge(run_long_windows(ctx));
     rep.merge(run_dataitem(ctx));
     rep.merge(run_calm(ctx));
     if ctx.only.is_none() && rep.counters.get("calm.twin_streams").copied().unwrap_or(0) == 0 {
